@@ -7,7 +7,7 @@ Generator : option tables of documented values for both samplers; cases =
 Oracle    : outcome classes of a bounded real run: exception before the first
             live point is drawn -> rejected up front (pass); completes and the
             results pass the C05 recomputation (pass); exception after
-            sampling started (violation); > 10^4 latent batches in one pool
+            sampling started (violation); > 2e6 latent draws in one pool
             population (violation, non-terminating); wall-clock backstop
             (inconclusive).
 """
@@ -197,6 +197,40 @@ def apply(base, model, opts):
     return model, kw, run_kwargs
 
 
+# options that act on the same mechanism: every pair of values of two
+# different options of a group is enumerated (exhaustive pairwise inside the
+# group; across groups pairs are sampled by the Hypothesis combinations)
+GROUPS = {
+    "contour": (False, [
+        "latent_prior", "constant_volume_mode", "volume_fraction", "fuzz",
+        "expansion_fraction", "fixed_radius", "min_radius", "max_radius",
+        "compute_radius_with_all", "check_acceptance", "truncate_log_q",
+        "accumulate_weights"]),
+    "training": (False, [
+        "reset_weights", "reset_permutations", "reset_flow",
+        "retrain_acceptance", "reset_acceptance", "acceptance_threshold",
+        "train_on_empty", "training_frequency", "cooldown", "memory",
+        "maximum_uninformed"]),
+    "levels": (True, [
+        "threshold_method", "strict_threshold", "replace_all",
+        "draw_constant", "draw_iid_live", "n_initial", "min_samples",
+        "min_remove", "max_samples", "n_update"]),
+}
+
+
+def group_pairs():
+    out = []
+    for gname, (ins, names) in sorted(GROUPS.items()):
+        table = INS_OPTIONS if ins else STD_OPTIONS
+        for i, a in enumerate(names):
+            for b in names[i + 1:]:
+                for va in table[a]:
+                    for vb in table[b]:
+                        out.append({"ins": ins, "opts": [(a, va), (b, vb)],
+                                    "group": gname})
+    return out
+
+
 def single_cases(ins):
     table = INS_OPTIONS if ins else STD_OPTIONS
     out = []
@@ -236,10 +270,7 @@ def to_case(spec, default_seed):
 
 def make_history(case):
     mons = ["draws"]
-    h = configs.history_from(case, mons, post=["results"])
-    for s in h["steps"]:
-        s["draw_batches_limit"] = 10000
-    return h
+    return configs.history_from(case, mons, post=["results"])
 
 
 def judge(case, reports, add, stats):
@@ -268,8 +299,9 @@ def judge(case, reports, add, stats):
         classes.append("outcome:population-never-ends")
         db = (r.get("data") or {}).get("draw_bound") or {}
         add("population-draw-bound@%s" % db.get("proposal"),
-            f"more than {db.get('batches')} latent batches of "
-            f"{db.get('drawsize')} draws in one pool population "
+            f"more than {db.get('draws')} latent draws "
+            f"({db.get('batches')} batches of {db.get('drawsize')}) in one "
+            f"pool population "
             f"(options {case.get('opts')})")
     elif r.get("timed_out"):
         classes.append("outcome:timeout")
@@ -309,6 +341,14 @@ def build_cases(ctx):
     for s in seeds:
         for spec in singles:
             cases.append(to_case(spec, s))
+    pairs = group_pairs()
+    if ctx.quick:
+        k = ctx.seed % 6
+        pairs = [p_ for i, p_ in enumerate(pairs) if i % 6 == k]
+    for spec in pairs:
+        c = to_case(spec, seeds[0])
+        c["labels"].append("group-pair:" + spec["group"])
+        cases.append(c)
     n_combo = 24 if ctx.quick else 400
     for ins, n in ((False, n_combo * 2 // 3), (True, n_combo // 3)):
         specs = configs.collect(combo(ins), ctx.seed + (1 if ins else 0), n,
